@@ -41,6 +41,13 @@ CallLong == /\ ~inflight /\ ~ended /\ conn = "ok" /\ up /\ quiet
 Collect == /\ inflight /\ inflight' = FALSE
            /\ Rec("collect", IF conn = "lost" \/ ended \/ ~quiet THEN "connerr" ELSE "ok")
            /\ UNCHANGED <<budget, up, conn, ended, uid, quiet>>
+\* a call that is being launched (already registered as pending, not yet written) at the moment the reader
+\* detects the loss of the connection; the server stays reachable.  The call must complete -- with the reply
+\* after a redial, or with a connection error --, and the session must recover (or end, without redial).
+CallTorn == /\ ~inflight /\ ~ended /\ conn = "ok" /\ up /\ quiet /\ budget # 3
+            /\ IF Redials THEN Rec("calltorn", "any") /\ conn' = "lost" /\ UNCHANGED ended
+                          ELSE Rec("calltorn", "connerr") /\ ended' = TRUE /\ conn' = "lost"
+            /\ quiet' = FALSE /\ UNCHANGED <<budget, up, inflight, uid>>
 Cut  == /\ ~ended /\ conn = "ok" /\ conn' = "lost" /\ quiet' = FALSE /\ Rec("cut", "-") /\ UNCHANGED <<budget, up, ended, inflight, uid>>
 Down == /\ up /\ up' = FALSE /\ conn' = (IF ended THEN conn ELSE "lost") /\ quiet' = FALSE /\ Rec("down", "-") /\ UNCHANGED <<budget, ended, inflight, uid>>
 Up   == /\ ~up /\ up' = TRUE /\ Rec("up", "-") /\ UNCHANGED <<budget, conn, ended, inflight, uid, quiet>>
@@ -58,7 +65,7 @@ Wait == /\ ~inflight
 Blip == /\ budget = 3 /\ ~ended /\ conn = "ok" /\ up /\ quiet /\ conn' = "lost" /\ quiet' = FALSE /\ Rec("blip", "-")
         /\ UNCHANGED <<budget, up, ended, inflight, uid>>
 Next == IF budget = 3 THEN Blip \/ Wait \/ (quiet /\ Call) \/ SetID
-        ELSE Call \/ CallLong \/ Collect \/ Cut \/ Down \/ Up \/ SetID \/ Wait
+        ELSE Call \/ CallLong \/ Collect \/ Cut \/ Down \/ Up \/ SetID \/ Wait \/ CallTorn
 Spec == Init /\ [][Next]_vars
 \* sanity of the expectation model: an ended session never becomes healthy again; without redial every loss ends the session
 EndedStays == [][ended => ended']_vars
